@@ -1943,14 +1943,14 @@ func stdIntrinsic(name string, fn *ssa.Function) intrinsicFn {
 			}
 			switch {
 			case types.Identical(pt.Elem(), src.T):
-				x.store(p, x.deepCopyJSON(src.V))
+				x.storeDecoded(p, x.deepCopyJSON(src.V), pt.Elem())
 			case isEmptyIface(pt.Elem()):
 				x.store(p, &IfaceV{T: src.T, V: x.deepCopyJSON(src.V)})
 			default:
 				if sp, isPtr := src.T.(*types.Pointer); isPtr && types.Identical(pt.Elem(), sp.Elem()) && src.V.(*Pointer) != nil {
 					x.store(p, x.deepCopyJSON(x.load(src.V.(*Pointer))))
 				} else if cv, ok := x.jsonConvert(src.V, src.T, pt.Elem(), !strings.HasSuffix(name, "go-sdk/internal/json.Unmarshal")); ok {
-					x.store(p, cv)
+					x.storeDecoded(p, cv, pt.Elem())
 				} else {
 					return x.newErr("json: cannot unmarshal into " + pt.Elem().String())
 				}
@@ -2150,4 +2150,25 @@ type decoderState struct {
 	r         Value
 	useNumber bool
 	used      bool
+}
+
+// storeDecoded stores a decoded JSON value. Decoding an object into a map that is not nil keeps the map and its
+// entries: the object's members are added to it (or overwrite the entries of the same key) — encoding/json and the
+// segmentio decoder agree on that.
+func (x *Exec) storeDecoded(p *Pointer, val Value, dt types.Type) {
+	if _, isMap := dt.Underlying().(*types.Map); isMap {
+		if old, _ := x.load(p).(*MapV); old != nil {
+			if nv, _ := val.(*MapV); nv != nil {
+				for _, e := range nv.Entries {
+					if oe := x.mapFind(old, e.K); oe != nil && oe.Present == nil && e.Present == nil {
+						oe.V = e.V
+					} else {
+						old.Entries = append(old.Entries, e)
+					}
+				}
+				return
+			}
+		}
+	}
+	x.store(p, val)
 }
